@@ -7,7 +7,7 @@ from impl import quiet
 from common import VERIF
 import panoptica.panoptica_aggregator as PA
 
-RULE = ("(30% of the cases resume a file in which an earlier session recorded subjects, some with empty cells) the real Panoptica_Aggregator under a controlled scheduler (locks, file helpers and the evaluator call wrapped "
+RULE = ("(names incl. look-alikes: byte-order mark, ideographic space, quotes, accents, trailing blanks; pool workers receiving the pickled bound method aggregator.evaluate with every subject submitted three times) (30% of the cases resume a file in which an earlier session recorded subjects, some with empty cells) the real Panoptica_Aggregator under a controlled scheduler (locks, file helpers and the evaluator call wrapped "
         "from outside; every lock/file operation is one scheduling point): random schedules of 2-4 concurrent "
         "evaluate()/make_statistic() threads with distinct and colliding subject names, compared step by step with the "
         "Lean machine (files, lock owners) and judged at the end against a sequential run; quick: 250 random schedules + "
@@ -245,10 +245,57 @@ def fork_run(ctx, n_proc, names, delay, src):
         shutil.rmtree(d, ignore_errors=True)
 
 
+def pool_run(ctx, n_subjects, repeat, src):
+    """the documented parallel entry point: the bound method aggregator.evaluate shipped to forked pool workers
+    (NonDaemonicPool.starmap), every subject submitted `repeat` times; each task runs on an unpickled copy of the
+    aggregator object"""
+    from panoptica.utils import NonDaemonicPool
+    import gc
+    names = [f"subject_{k:02d}" for k in range(n_subjects)]
+    submitted = names * repeat
+    inp = {"mode": "pool", "names": submitted, "src": src}
+    d = workdir("c16pool")
+    try:
+        impl.serial_pool(True)
+        with quiet():
+            agg = PA.Panoptica_Aggregator(mk_evaluator(), os.path.join(d, "out.tsv"))
+        code = {n: k + 1 for k, n in enumerate(names)}
+        args = [subject_arrays(code[n]) + (n,) for n in submitted]
+        err = None
+        try:
+            with quiet(), NonDaemonicPool(processes=2) as pool:
+                r = pool.starmap_async(agg.evaluate, args, chunksize=1)
+                r.get(timeout=120)
+        except Exception as e:
+            err = type(e).__name__
+        with builtins.open(os.path.join(d, "out.tsv"), newline="") as f:
+            rows = list(csv.reader(f, delimiter="\t"))
+        ctx.case(inp, True)
+        ctx.count("pool_worker_runs")
+        got = sorted(r[0] for r in rows[1:])
+        fails = []
+        if err:
+            fails.append(f"pool workers: starmap(aggregator.evaluate) failed with {err}")
+        if not rows or rows[0][0] != "subject_name" or got != names:
+            fails.append(f"pool workers: output holds rows for {got}, expected exactly one per subject {names}")
+        else:
+            for r in rows[1:]:
+                if r != reference_row(r[0], code[r[0]]):
+                    fails.append(f"pool workers: row of {r[0]} differs from a sequential run")
+        if fails:
+            ctx.violation("C16 violated: " + fails[0], inp, impl={"rows": got}, key={"kind": "pool"})
+    finally:
+        shutil.rmtree(d, ignore_errors=True)
+        gc.collect()
+
+
+POOL_NAMES = ["s1", "s2", "s 3", "s-4", "s1 ", " s2", "S1", "\ufeffs1", "\u00e9 1", 's"1', "s1\ufeff", "\u3000s2"]
+
+
 def rand_case(ctx, tag, i):
     rng = ctx.rng
     N = rng.choice([2, 2, 3, 3, 4])
-    pool = rng.sample(["s1", "s2", "s 3", "s-4", "s1 ", " s2", "S1"], rng.randint(1, 4))
+    pool = rng.sample(POOL_NAMES, rng.randint(1, 4))
     names, kinds = [], []
     for _ in range(N):
         if rng.random() < 0.2 and "eval" in kinds:
@@ -283,8 +330,14 @@ def run(ctx):
     for sched in sorted(set(itertools.permutations([0, 0, 0, 1, 1, 1]))):
         one_schedule(ctx, ["dup", "dup"], ["eval", "eval"], list(sched), "exh3x3")
     ctx.extra["exhaustive_subspace"] = "all 20 interleavings of the first 3 actions (acquire, read, claim/skip) of two colliding evaluate() calls"
+    # names that differ only by characters a tolerant reader might strip (byte-order mark, ideographic space, case)
+    for first in ("\ufeffs1", "\u3000s2", "s1\ufeff"):
+        for sched in ([0] * 9 + [1] * 9 + [2] * 9, [0, 1] * 10 + [2] * 9, [2] * 9 + [0] * 9 + [1] * 9):
+            one_schedule(ctx, [first, first, first.strip("\ufeff\u3000")], ["eval", "eval", "eval"], list(sched), "corpus.lookalike-names")
     for i in range(ctx.scale(250, 4000)):
         rand_case(ctx, "rand", i)
+    for k in range(ctx.scale(1, 6)):
+        pool_run(ctx, 6, 3, f"pool{k}")
     for k in range(ctx.scale(3, 30)):
         fork_run(ctx, 5, ["dup", "dup", "dup", "solo_a", "solo_b"], 0.15, f"fork{k}")
 
@@ -298,6 +351,9 @@ def search(ctx):
 
 def replay(ctx, rec):
     i = rec["input"]
+    if i.get("mode") == "pool":
+        pool_run(ctx, len(set(i["names"])), len(i["names"]) // len(set(i["names"])), "replay")
+        return
     if i.get("mode") == "fork":
         fork_run(ctx, len(i["names"]), i["names"], i["delay"], "replay")
     else:
